@@ -6,6 +6,7 @@
 //!   pie_replay replay '<json ops>'                                   run exactly one recorded operation sequence
 use pie_graph::{DAG, Error, Node};
 mod piemodel;
+mod fsmodel;
 
 #[derive(Clone, Copy, Debug, PartialEq)]
 enum Op { AddNode, AddEdge(usize, usize), RemoveEdge(usize, usize), RemoveOut(usize), RemoveNode(usize) }
@@ -220,6 +221,7 @@ impl Rng { fn next(&mut self) -> u64 { self.0 ^= self.0 << 13; self.0 ^= self.0 
 fn main() {
   let args: Vec<String> = std::env::args().collect();
   if args.len() >= 2 && (args[1] == "pie" || args[1] == "pie-case") { pie_main(&args); return; }
+  if args.len() >= 2 && (args[1] == "fs" || args[1] == "fs-case") { fs_main(&args); return; }
   if args.len() >= 3 && args[1] == "replay" {
     let ops = parse_ops(&args[2]);
     match run(&ops) { Ok(()) => { println!("{{\"violation\":false,\"ops\":{}}}", ops_json(&ops)); }, Err((at, f)) => { report(&ops, at, &f); std::process::exit(1); } }
@@ -303,5 +305,25 @@ fn pie_main(args: &[String]) {
     }
   }
   println!("{{\"summary\":true,\"engine\":\"pie\",\"programs\":{},\"history_len\":{},\"seed\":{},\"cases\":{},\"violations\":{}}}", programs, hist, seed, ran, found);
+  if found > 0 { std::process::exit(1); }
+}
+
+/// C13 bounded stand-in: `fs` runs every case of fsmodel (ordered pairs of path states x three checkers, writer route);
+/// `fs-case --index I` re-runs one.
+fn fs_main(args: &[String]) {
+  let get = |name: &str, d: usize| -> usize { args.iter().position(|a| a == name).map(|i| args[i + 1].parse().unwrap()).unwrap_or(d) };
+  let only = if args[1] == "fs-case" { Some(get("--index", 0)) } else { None };
+  let dir = fsmodel::scratch();
+  let n = fsmodel::cases(); let mut found = 0usize; let mut ran = 0usize;
+  let range = match only { Some(i) => i..i + 1, None => 0..n };
+  for i in range {
+    ran += 1;
+    if let Err(f) = fsmodel::run_index(&dir, i) {
+      println!("{{\"violation\":true,\"engine\":\"fs\",\"property\":\"{}\",\"obligation\":\"{}\",\"rerun\":{:?},\"what\":{:?},\"case\":\"\"}}", f.prop, f.ob, format!("fs-case --index {}", i), f.what);
+      found += 1; if found >= 5 { break; }
+    }
+  }
+  fsmodel::cleanup(&dir);
+  println!("{{\"summary\":true,\"engine\":\"fs\",\"path_states\":{},\"cases\":{},\"violations\":{}}}", fsmodel::states().len(), ran, found);
   if found > 0 { std::process::exit(1); }
 }
